@@ -2579,6 +2579,13 @@ impl PublicKey {
                                 Some(s0 + ni - nj)
                             }
                         };
+                        // A zero s is not a valid signature (this happens
+                        // if the received bits of s are all zero and
+                        // h*G + r*Q is the point-at-infinity).
+                        let s = match s {
+                            Some(s) if s.iszero() == 0 => Some(s),
+                            _ => None,
+                        };
                         if let Some(s) = s {
                             // sig2[] already contains r, we just have to
                             // encode the complete s in it.
